@@ -123,3 +123,79 @@ def uf(name, *args):
 
 def ufb(name, *args):
     raise SkipCase()
+
+
+# ---------------------------------------------------------------- native IR helpers (real xDSL objects)
+_RT = {}  # id(SSAValue) -> dict(shape, strides, offset, ptr): run-time descriptor of a test memref value
+
+
+def mk_memref_value(type, rt_shape, rt_strides=None, rt_offset=0, rt_ptr=None):
+    from xdsl.utils.test_value import create_ssa_value
+
+    v = create_ssa_value(type)
+    _RT[id(v)] = dict(shape=list(rt_shape), strides=list(rt_strides) if rt_strides is not None else None,
+                      offset=rt_offset, ptr=rt_ptr, keep=v)
+    return v
+
+
+def den(x, env=None):
+    """evaluate the integer an SSA value holds, by interpreting the real arith/memref ops that define it"""
+    from xdsl.dialects import arith, memref
+    from xdsl.dialects.builtin import IntegerAttr
+    from xdsl.ir import Operation, OpResult, SSAValue
+
+    if isinstance(x, int):
+        return x
+    if isinstance(x, Operation):
+        x = x.results[0]
+    if env is not None and id(x) in env:
+        return env[id(x)]
+    if not isinstance(x, OpResult):
+        raise SkipCase()
+    op = x.owner
+    ev = lambda v: den(v, env)
+    if isinstance(op, arith.ConstantOp):
+        assert isinstance(op.value, IntegerAttr)
+        return op.value.value.data
+    if isinstance(op, arith.AddiOp):
+        return ev(op.lhs) + ev(op.rhs)
+    if isinstance(op, arith.SubiOp):
+        return ev(op.lhs) - ev(op.rhs)
+    if isinstance(op, arith.MuliOp):
+        return ev(op.lhs) * ev(op.rhs)
+    if isinstance(op, (arith.DivUIOp, arith.FloorDivSIOp)):
+        return ev(op.lhs) // ev(op.rhs)
+    if isinstance(op, arith.RemUIOp):
+        return ev(op.lhs) % ev(op.rhs)
+    if isinstance(op, arith.ShLIOp):
+        return ev(op.lhs) << ev(op.rhs)
+    if isinstance(op, arith.OrIOp):
+        return ev(op.lhs) | ev(op.rhs)
+    if isinstance(op, arith.AndIOp):
+        return ev(op.lhs) & ev(op.rhs)
+    if isinstance(op, (arith.IndexCastOp, arith.ExtUIOp, arith.ExtSIOp)):
+        return ev(op.input)
+    if isinstance(op, memref.DimOp):
+        return _RT[id(op.source)]["shape"][ev(op.index)]
+    if isinstance(op, memref.ExtractAlignedPointerAsIndexOp):
+        return _RT[id(op.source)]["ptr"]
+    if isinstance(op, memref.ExtractStridedMetaDataOp):
+        rt = _RT[id(op.source)]
+        n = len(rt["shape"])
+        i = x.index
+        if i == 0:
+            return rt["ptr"]
+        if i == 1:
+            return rt["offset"]
+        if i < 2 + n:
+            return rt["shape"][i - 2]
+        return rt["strides"][i - 2 - n]
+    raise NotImplementedError(f"native den of {op.name}")
+
+
+def rt_shape(m, d):
+    return _RT[id(m)]["shape"][d]
+
+
+def rt_stride(m, d):
+    return _RT[id(m)]["strides"][d]
